@@ -471,9 +471,10 @@ func init() {
 
 	register(&Property{
 		ID: "C17", Title: "HTTP status mapping, service meta limits and CORS allow-list",
-		Explanation: "Decides completely the finite tables: errorStatus maps each code of the property's table (and five other codes) to the stated status, by constant propagation with the code fixed (TABLE/errorStatus); IsDirectResponseStatus and IsValidStatus are true exactly within 300..599, with the nil cases (TABLE/status-interval); MergeHeader never copies the five protected keys, each canonical, appends Set-Cookie and replaces other keys (TABLE/protected); every meta a decoder hands out was canonicalised (DOM/canonicalize); on a direct-response status no further service request is issued and no data is handed out (DOM/gates); the origin check precedes header auth and every service request (DOM/origin); the error-to-status table is closed: every code errorStatus tells apart, and any other, maps to the listed status or 400 (TABLE/errorStatus). Not decided: matchesOrigins for all strings, net/http and gorilla behaviour. Added after seeding round 7: an error is replaced by methodNotAllowed only on paths that excluded GET, HEAD and POST, so methodNotFound keeps its 404 there (TABLE/method-rewrite). Added after seeding round 8: merging two service metas takes the later status on every path (DOM/meta-merge). Added after seeding round 9: the header-auth answer's meta is kept whenever the request goes on, so its cookies accumulate with the later ones (DOM/auth-meta-kept). Added after seeding round 10: the upgrader's origin test is set only where the service's upgrader is built (DOM/origin). Added after seeding round 11: the origin \"null\" is recognised on the header value as received (DOM/null-origin-raw). Added after the mutation sweep: no path of a handler or response continuation answers twice (PAIR/respond-once).",
+		Explanation: "Decides completely the finite tables: errorStatus maps each code of the property's table (and five other codes) to the stated status, by constant propagation with the code fixed (TABLE/errorStatus); IsDirectResponseStatus and IsValidStatus are true exactly within 300..599, with the nil cases (TABLE/status-interval); MergeHeader never copies the five protected keys, each canonical, appends Set-Cookie and replaces other keys (TABLE/protected); every meta a decoder hands out was canonicalised (DOM/canonicalize); on a direct-response status no further service request is issued and no data is handed out (DOM/gates); the origin check precedes header auth and every service request (DOM/origin); the error-to-status table is closed: every code errorStatus tells apart, and any other, maps to the listed status or 400 (TABLE/errorStatus). Not decided: matchesOrigins for all strings, net/http and gorilla behaviour. Added after seeding round 7: an error is replaced by methodNotAllowed only on paths that excluded GET, HEAD and POST, so methodNotFound keeps its 404 there (TABLE/method-rewrite). Added after seeding round 8: merging two service metas takes the later status on every path (DOM/meta-merge). Added after seeding round 9: the header-auth answer's meta is kept whenever the request goes on, so its cookies accumulate with the later ones (DOM/auth-meta-kept). Added after seeding round 10: the upgrader's origin test is set only where the service's upgrader is built (DOM/origin). Added after seeding round 11: the origin \"null\" is recognised on the header value as received (DOM/null-origin-raw). Added after the mutation sweep: no path of a handler or response continuation answers twice (PAIR/respond-once). Added after the mutation sweep: a direct-response meta status of the access answer ends an HTTP request before its grants are looked at (DOM/direct-status-first).",
 		Assumptions: baseAssumptions,
 		Rules: []Rule{
+			{Name: "DOM/direct-status-first", Min: 2, Run: ruleDirectStatusFirst, Doc: "in the continuations of HTTP access requests CanGet/CanCall are evaluated only behind IsDirectResponseStatus() == false"},
 			{Name: "PAIR/respond-once", Min: 5, Run: ruleRespondOnce, Doc: "every path of every function holding the ResponseWriter produces at most one response (helper, upgrade, or own status/body)"},
 			{Name: "DOM/null-origin-raw", Min: 2, Run: ruleNullOriginRaw, Doc: "the null origin that bypasses the allow-list is recognised on the header value as received, not after case folding"},
 			{Name: "DOM/auth-meta-kept", Min: 1, Run: ruleAuthMetaKept, Doc: "the header-auth answer's meta (headers, cookies) is kept whenever the request goes on"},
